@@ -708,7 +708,27 @@ def int_value(n):
         rd = n.get('referencedDecl') or {}
         if rd.get('kind') == 'EnumConstantDecl':
             return None
+        if rd.get('kind') == 'VarDecl':
+            # a const-qualified integral variable with a constant initialiser is that constant
+            # (named constants replacing magic numbers must not change any verdict)
+            qt = ((rd.get('type') or {}).get('qualType') or '')
+            if (qt.startswith('const ') or ' const' in qt) and '*' not in qt and '&' not in qt and '[' not in qt:
+                if _CONST_DEPTH[0] < 6:
+                    _CONST_DEPTH[0] += 1
+                    try:
+                        for d in DECLS.get(rd.get('id'), ()):
+                            if d.get('kind') == 'VarDecl' and d.get('name') == rd.get('name') and d.get('inner'):
+                                init = [c for c in d['inner'] if c.get('kind') and not c['kind'].endswith('Attr')]
+                                if init:
+                                    v = int_value(init[-1])
+                                    if v is not None:
+                                        return wrap_to_type(v, (d.get('type') or {}).get('desugaredQualType') or (d.get('type') or {}).get('qualType'))
+                    finally:
+                        _CONST_DEPTH[0] -= 1
     return None
+
+
+_CONST_DEPTH = [0]
 
 
 INT_TYPES = {
@@ -915,7 +935,7 @@ def nf(n, leaf=None):
     if n is None:
         return '?'
     v = int_value(n)
-    if v is not None and n.get('kind') != 'DeclRefExpr':
+    if v is not None:
         return str(v)
     k = n.get('kind')
     if k in ('BinaryOperator', 'CompoundAssignOperator'):
